@@ -5,7 +5,7 @@ import traceback
 
 import z3
 
-from .smt import And, Or, Not, Implies, check_sat, prove, to_smt2, cvc5_check, TRUE, FALSE, const_bool
+from .smt import And, Or, Not, Implies, check_sat, prove, cone_of_influence, to_smt2, cvc5_check, TRUE, FALSE, const_bool
 from .values import NONE, SExc, Unsupported
 from .contracts import Ctx, REGISTRY
 from .exec import Executor, Oblig
@@ -149,9 +149,40 @@ def discharge(ob, timeout_s=10, use_cvc5=True, want_model=True):
     if ob.kind == "vacuous":
         return OResult(ob.name, ob.kind, ob.func, "vacuous", "z3", 0.0, note="contradictory precondition")
     assertions = list(ob.pc) + [Not(ob.goal)]
-    r, solver = prove(assertions, int(timeout_s * 1000))
+    # The hypotheses that share no symbol (transitively) with the negated goal cannot contribute to a contradiction unless
+    # they are contradictory among themselves: decide the goal on its cone of influence, and the rest separately.
+    neg = assertions[-1]
+    cone, rest = cone_of_influence(assertions[:-1], neg)
+    if len(cone) == 1:          # goal without symbols (literally false): the question is path feasibility, use everything
+        cone, rest = assertions, []
+
+    def _rest_unsat():
+        if not rest:
+            return False
+        rr, _ = check_sat(rest, 2000, mbqi=False)
+        return rr == "unsat"
+
+    def _failed(solver, backend):
+        if _rest_unsat():
+            return OResult(ob.name, ob.kind, ob.func, "discharged", "z3", time.time() - t0, note="infeasible path")
+        model = extract_model(solver, ob) if want_model else None
+        n = ("counter-model of the goal's cone of influence (%d of %d hypotheses; the others share no symbol with it)"
+             % (len(cone) - 1, len(assertions) - 1)) if rest else ""
+        return OResult(ob.name, ob.kind, ob.func, "failed", backend, time.time() - t0, model=model, note=n)
+
+    r, solver = check_sat(cone, int(timeout_s * 1000), mbqi=False)
     if r == "unsat":
         return OResult(ob.name, ob.kind, ob.func, "discharged", "z3", time.time() - t0)
+    if r == "sat":
+        return _failed(solver, "z3")
+    r, solver = check_sat(cone, int(timeout_s * 1000), mbqi=True)
+    if r == "unsat":
+        return OResult(ob.name, ob.kind, ob.func, "discharged", "z3", time.time() - t0)
+    if r == "sat":
+        return _failed(solver, "z3")
+    if _rest_unsat():
+        return OResult(ob.name, ob.kind, ob.func, "discharged", "z3", time.time() - t0, note="infeasible path")
+    assertions = cone
     smt2 = None
     if r == "unknown" and use_cvc5:
         try:
